@@ -434,8 +434,14 @@ func (c *Client) store(rid string, r *CRes, f *Frame) {
 		c.closeInterval(old, "resent")
 	}
 	if c.DeletedSeen[rid] {
-		// a re-sent copy of a resource the client knows to be deleted stays deleted
-		r.Deleted = true
+		if _, v := c.s.W.lookup(c.expandCID(rid)); v != nil && !v.Deleted && c.s.deletedByRefetch[v] {
+			// the delete event came from a failed reset re-fetch, the resource is
+			// still there: loaded anew, it lives again
+			delete(c.DeletedSeen, rid)
+		} else {
+			// a re-sent copy of a resource the client knows to be deleted stays deleted
+			r.Deleted = true
+		}
 	}
 	c.Cache[rid] = r
 	if r.Kind != 'e' && !r.Deleted {
